@@ -58,8 +58,8 @@ type Overlay struct {
 	Count   int    `json:"count,omitempty"`
 	// position-based form (generated survey mutants): replace Length bytes at byte Offset; when Find
 	// is given it must be the text at that position
-	Offset int `json:"offset,omitempty"`
-	Length int `json:"length,omitempty"`
+	Offset int  `json:"offset,omitempty"`
+	Length int  `json:"length,omitempty"`
 	AtPos  bool `json:"at_pos,omitempty"`
 }
 
@@ -128,6 +128,7 @@ func loadProgram(repo string, overlays []Overlay, tests bool) (*Program, error) 
 		return nil, fmt.Errorf("no packages loaded from %s", repo)
 	}
 	p := &Program{Repo: repo, ByPath: map[string]*packages.Package{}}
+	curProgram = p
 	var errs []string
 	seen := map[string]bool{}
 	packages.Visit(pkgs, nil, func(pk *packages.Package) {
@@ -166,6 +167,7 @@ func loadProgram(repo string, overlays []Overlay, tests bool) (*Program, error) 
 	if len(p.Roots) == 0 {
 		return nil, fmt.Errorf("no root packages of %s under %s", modPath, repo)
 	}
+	normalizeProgram(p)
 	return p, nil
 }
 
